@@ -51,7 +51,7 @@ theorem prevote_inert (v : Vol) (q : VoteReq) (f c : Option Nat) :
 theorem prevote_event_inert (w : World) (q : VoteReq) (hd : w.dead = false) :
     (stepEvent w (.prevote q)).1 = w := by
   have h := prevote_inert w.v q none none
-  simp only [stepEvent, hd, planOf]
+  simp only [stepEvent, hd, planOf, stepPlan]
   simp only [exec_none, preVotePlan, mkRes, Plan.writes, List.map_nil, applyAll, List.foldl_nil]
   simp [hd.symm]
   cases w; simp_all
@@ -90,7 +90,9 @@ theorem install_covered_inert (cf : Cfg) (d : Durable) (v : Vol) (q : ISReq)
     (isPlan cf d v q).final.vol = { v with leader := q.leader, leaderId := q.leaderId } := by
   have h1 : ¬ q.term < v.term := by omega
   have h2 : ¬ q.term > v.term := by omega
-  simp only [isPlan, h1, h2, if_false]
+  have hv2 : isVol2 v q = { v with leader := q.leader, leaderId := q.leaderId } := by
+    simp [isVol2, h2]
+  simp only [isPlan, h1, if_false, isPre, h2, hv2, isTail]
   rcases h with h | h
   · simp [h, mkRes]
   · simp [h, mkRes]
@@ -116,7 +118,7 @@ theorem exec_cases (p : Plan) (f c : Option Nat) :
 theorem votePlan_steps_refuse (d : Durable) (v : Vol) (q : VoteReq) :
     ∀ s ∈ (votePlan d v q).steps, ∀ t, s.2.resp ≠ .vote t true := by
   intro s hs t
-  unfold votePlan at hs
+  unfold votePlan votePre voteVol1 at hs
   simp only [] at hs
   repeat' (split at hs)
   all_goals simp_all [mkRes]
@@ -137,7 +139,7 @@ theorem votePlan_final_granted (d : Durable) (v : Vol) (q : VoteReq) (t : Nat)
     by_cases hg : q.term > v.term <;> simp [hg, stepDown]
   have hv1e : lastEntry (if q.term > v.term then stepDown v q.term else v) = lastEntry v := by
     by_cases hg : q.term > v.term <;> simp [hg, hle]
-  unfold votePlan at h
+  unfold votePlan votePre voteVol1 at h
   simp only [] at h
   split at h
   · simp [mkRes] at h
@@ -194,7 +196,7 @@ theorem votePlan_final_granted (d : Durable) (v : Vol) (q : VoteReq) (t : Nat)
     · by_cases hg : q.term > v.term
       · simp [hg] at h; exact h.symm
       · simp [hg] at h; omega
-    · unfold votePlan
+    · unfold votePlan votePre voteVol1
       simp only []
       rw [if_neg g1, if_neg g2, if_neg g3, if_neg g4, hv1e, if_neg g5, if_neg g6, if_neg g7]
       by_cases hg : q.term > v.term <;> simp [hg, applyAll, Write.apply, Plan.writes]
@@ -224,7 +226,7 @@ theorem vote_grant_sound (d : Durable) (v : Vol) (q : VoteReq) (f c : Option Nat
       -- (no vote write), so the record is unchanged
       have hnw : ∀ w ∈ (votePlan d v q).writes, (∃ x, w = .setTerm x) ∨ w = .setVoteTerm q.term ∨ w = .setVoteCand q.cand := by
         intro w hw
-        unfold votePlan at hw
+        unfold votePlan votePre voteVol1 at hw
         simp only [] at hw
         repeat' (split at hw)
         all_goals simp_all [Plan.writes]
